@@ -649,7 +649,7 @@ class CommitRun:
         self.commits = []
         self.ops = []
         self.ids = {}
-        if kind in ("worktree", "porcelain", "amend"):
+        if kind in ("worktree", "porcelain", "amend", "merge", "merge-noff"):
             from dulwich.repo import Repo
             r = Repo.init(self.root)
             self.tree = r.object_store.add_object  # placeholder
@@ -659,6 +659,20 @@ class CommitRun:
             self.tree_id = t.id
             c0 = r.get_worktree().commit(message=b"c0", committer=b"a <a@b>", author=b"a <a@b>", commit_timestamp=1,
                                          commit_timezone=0, author_timestamp=1, author_timezone=0, tree=t.id)
+            if kind in ("merge", "merge-noff"):
+                # a side branch one commit ahead of c0: merging it into the current branch is a fast-forward
+                # (or, with no_ff / after another commit, a merge commit)
+                from dulwich.objects import Commit
+                sc = Commit()
+                sc.tree = t.id
+                sc.parents = [c0]
+                sc.author = sc.committer = b"a <a@b>"
+                sc.author_time = sc.commit_time = 5
+                sc.author_timezone = sc.commit_timezone = 0
+                sc.message = b"side"
+                r.object_store.add_object(sc)
+                r.refs[b"refs/heads/side"] = sc.id
+                self.side = sc.id
             if packed:
                 r.refs.pack_refs(all=True)
             r.close()
@@ -684,7 +698,7 @@ class CommitRun:
 
     def actor(self, a):
         def body():
-            if self.kind in ("worktree", "porcelain", "amend"):
+            if self.kind in ("worktree", "porcelain", "amend", "merge", "merge-noff"):
                 from dulwich.repo import Repo
                 r = Repo(self.root)
                 commit = lambda: r.get_worktree().commit(
@@ -707,6 +721,20 @@ class CommitRun:
                         commit = lambda: porcelain.commit(
                             r, message=b"by %d" % a, committer=b"a <a@b>", author=b"a <a@b>", commit_timestamp=10 + a,
                             commit_timezone=0, author_timestamp=10 + a, author_timezone=0, sign=False)
+                if self.kind in ("merge", "merge-noff") and a == 0:
+                    from dulwich import porcelain
+
+                    def commit(noff=(self.kind == "merge-noff")):
+                        mid, conflicts = porcelain.merge(r, b"refs/heads/side", no_ff=noff, message=b"merge side",
+                                                         author=b"a <a@b>", committer=b"a <a@b>")
+                        if conflicts:
+                            raise RuntimeError("unexpected conflicts")
+                        return mid if mid is not None else self.side      # fast-forward: the branch is moved to side
+                elif self.kind in ("merge", "merge-noff"):
+                    from dulwich import porcelain
+                    commit = lambda: porcelain.commit(
+                        r, message=b"by %d" % a, committer=b"a <a@b>", author=b"a <a@b>", commit_timestamp=10 + a,
+                        commit_timezone=0, author_timestamp=10 + a, author_timezone=0, sign=False)
                 store = r.object_store
             else:
                 r = self.mem
@@ -724,6 +752,12 @@ class CommitRun:
                 rec["old"] = self.cid(parents[0]) if parents else 0
                 rec["res"] = 1
                 self.commits.append({"id": rec["new"], "parent": rec["old"], "ok": True, "msg": store[sha].message})
+                for extra in parents[1:]:
+                    # a merge commit: one entry per parent (RefsLin's ancestry is the union over entries of an id)
+                    self.commits.append({"id": rec["new"], "parent": self.cid(extra), "ok": True, "msg": b""})
+                if sha == getattr(self, "side", None):
+                    # fast-forward: the swap is from c0 (the side commit's parent), and side itself is no new commit
+                    self.commits[-1]["ok"] = False
                 if self.kind == "amend" and a == 0:
                     # the commit it replaced is the one whose message it carries; replacing it is the point of amend
                     self.amended_msg = store[sha].message
@@ -734,7 +768,7 @@ class CommitRun:
             self.world.note("retop")
             rec["r"] = self.world.seq
             self.ops.append(rec)
-            if self.kind in ("worktree", "porcelain", "amend"):
+            if self.kind in ("worktree", "porcelain", "amend", "merge", "merge-noff"):
                 r.close()
         return body
 
@@ -761,7 +795,7 @@ class CommitRun:
                 for name, orig in patched:
                     setattr(DictRefsContainer, name, orig)
         self.sched = s
-        if self.kind in ("worktree", "porcelain", "amend"):
+        if self.kind in ("worktree", "porcelain", "amend", "merge", "merge-noff"):
             from dulwich.repo import Repo
             r = Repo(self.root)
             tip = r.refs[b"HEAD"]
@@ -1218,6 +1252,8 @@ def run(ctx):
                                          ("worktree", 3, False, ctx.pick(1, 2), ctx.pick(120, 6000)),
                                          ("porcelain", 2, False, ctx.pick(1, 2), ctx.pick(150, 4000)),
                                          ("amend", 2, False, ctx.pick(1, 2), ctx.pick(200, 4000)),
+                                         ("merge", 2, False, ctx.pick(1, 2), ctx.pick(200, 4000)),
+                                         ("merge-noff", 2, False, ctx.pick(1, 2), ctx.pick(150, 4000)),
                                          ("porcelain", 2, True, ctx.pick(1, 2), ctx.pick(100, 4000)),
                                          ("memory", 2, False, 3, None), ("memory", 3, False, 2, ctx.pick(150, 5000))]:
         def run_once(prefix, kind=kind, n=n, packed=packed):
@@ -1231,7 +1267,7 @@ def run(ctx):
             ncommit += 1
             t = r.trace(tid)
             traces.append(t)
-            site = {"worktree": "dulwich/worktree.py:WorkTree.commit", "porcelain": "dulwich/porcelain:commit", "amend": "dulwich/porcelain:commit(amend=True)"}.get(kind, "dulwich/repo.py:MemoryRepo.do_commit")
+            site = {"worktree": "dulwich/worktree.py:WorkTree.commit", "porcelain": "dulwich/porcelain:commit", "amend": "dulwich/porcelain:commit(amend=True)", "merge": "dulwich/porcelain:merge", "merge-noff": "dulwich/porcelain:merge(no_ff)"}.get(kind, "dulwich/repo.py:MemoryRepo.do_commit")
             meta[tid] = {"sig": f"{site}|LostCommit|actors={n} packed={packed}",
                          "desc": f"{n} concurrent commits ({kind}): {r.commits} tip={r.tip} results={[(o['res'], o.get('excname')) for o in r.ops]}",
                          "choices": s.choices(), "kind": kind}
